@@ -991,6 +991,15 @@ def clamp(x, min=None, max=None):
     return _ew1(f, x)
 clip = clamp
 @api
+def softplus(x, beta=1, threshold=20):
+    """torch.nn.functional.softplus INCLUDING its linear switch: x where beta*x > threshold, log(1 + exp(beta x)) / beta elsewhere"""
+    bq, tq = Frac.of(_sc(beta)), Frac.of(_sc(threshold))
+    def f(v):
+        v = Frac.of(v)
+        if decide(v * bq > tq): return v
+        return AT.log(Frac.const(1) + AT.exp(v * bq)) / bq
+    return _ew1(f, x, 'f')
+@api
 def count_nonzero(x, dim=None):
     nz = ne(x, 0) if x._k != 'b' else x
     return sum(nz.to(int64), dim) if dim is not None else sum(nz.to(int64))
@@ -1348,7 +1357,14 @@ def _cross(a, b, dim=-1):
     out[..., 1] = _ew2(_sub, _ew2(_mul, _mk(aa[..., 2]), _mk(bb[..., 0])), _ew2(_mul, _mk(aa[..., 0]), _mk(bb[..., 2])))._a
     out[..., 2] = _ew2(_sub, _ew2(_mul, _mk(aa[..., 0]), _mk(bb[..., 1])), _ew2(_mul, _mk(aa[..., 1]), _mk(bb[..., 0])))._a
     return _mk(np.moveaxis(out, -1, dim), 'f')
-def cross(a, b, dim=-1): return _cross(a, b, dim)
+def cross(a, b, dim=None):
+    """torch.cross (NOT torch.linalg.cross): without dim it uses the FIRST dimension of size 3 (deprecated behaviour of torch)"""
+    if dim is None:
+        shape = np.broadcast_shapes(_T(a)._a.shape, _T(b)._a.shape)
+        cand = [i for i, n in enumerate(shape) if n == 3]
+        if not cand: raise RuntimeError("no dimension of size 3 in input")
+        dim = cand[0]
+    return _cross(a, b, dim)
 
 @api
 def norm(x, p=2, dim=None, keepdim=False, **k):
